@@ -3,7 +3,7 @@ import re
 
 from cfg import cfg_of
 from expr import Exprs, fmt, walk, contains, strip_tags
-from mirutil import is_call, dominating_conds, cond_bool, for_loops
+from mirutil import is_call, dominating_conds, cond_bool, for_loops, effect_profile, profile_diff
 from framework import site_of
 import callgraph as cgmod
 import pipeline
@@ -149,6 +149,17 @@ def run(F, rep):
         rep.ob("C11-P4", "both second-pass bodies test: base > 3, window full, distance >= segment size, candidate membership",
                need <= ca and need <= cb and any("contains(candidates" in x for x in ca) and any("contains(candidates" in x for x in cb),
                detail="only in one: %s" % sorted(ca ^ cb), site="%s:%d" % (a.file, a.line_lo), key="C11-P4 | second pass | same conditions")
+        pa, pb = effect_profile(a), effect_profile(b)
+        dd = profile_diff(pa, pb)
+        rep.ob("C11-P4", "both second-pass bodies perform the same state updates under the same guards (window reset, recent-k-mer list cleared on a non-ACGT base and after a split, ...)",
+               not dd and sum(pa.values()) >= 12, detail="(in-memory / streaming) %s" % dd[:4] if dd else "%d updates each" % sum(pa.values()),
+               site="%s:%d" % (b.file, b.line_lo), key="C11-P4 | second pass | same state updates")
+        for f, pf in ((a, pa), (b, pb)):
+            resets = [g for (g, eff), n in pf.items() if eff == "call Kmer::reset($)"]
+            miss = [g for g in resets if not pf.get((g, "call Vec::clear($)"))]
+            rep.ob("C11-P4", "%s: whenever the window restarts (non-ACGT base, or after a split) the list of recent k-mers is cleared too, so the end-of-contig search cannot reach across the restart" % f.key.rsplit("::", 1)[-1],
+                   len(resets) >= 2 and not miss, detail="restart without clear under %s" % [[c[:50] for c, _ in g] for g in miss] if miss else "%d restarts" % len(resets),
+                   site="%s:%d" % (f.file, f.line_lo), key="C11-P4 | %s | restart clears recent list" % f.key)
         for f in (a, b):
             ex = Exprs(f)
             revs = [L for L in for_loops(f, ex) if contains(L["source"], lambda x: isinstance(x, tuple) and x[0] == "call" and re.search(r"Iterator>?::rev$", x[1]))]
